@@ -299,7 +299,7 @@ def main():
     ap.add_argument("--only")
     a = ap.parse_args()
     n = 200_000 if a.tier == "quick" else 2_000_000
-    nz = 2_000_000 if a.tier == "quick" else 10_000_000
+    nz = 10_000_000 if a.tier == "quick" else 40_000_000
     G = grid()
     tasks = []
     for i, g in enumerate(G):
